@@ -205,12 +205,13 @@ def run(ctx):
     if err13:
         r["ok"] = False; r["failures"].append("fact extraction (C13: Indexer.indexed element type) failed: " + err13)
     cov["source_facts"] = {"C13": meta13}
-    cov["trusted_base"] += ["std::collections::BinaryHeap pops a greatest element (its order among equally named nodes is a parameter `sched` of the model; theorems hold for every permutation)",
+    cov["trusted_base"] += ["std::collections::BinaryHeap pops a greatest element (in the abstract model its order among equally named nodes is the parameter `sched`, theorems hold for every permutation; the literal model re-implements std's sift_up / sift_down_to_bottom and is compared exactly)",
                             "the `ignore` crate's override matcher (oracle input for rewrite, not modelled)",
                             "props/C13/extract.py (Indexer.indexed element type)"]
     ctx.assumptions += [
         "tree ids are collision-free hashes of the serialised tree: equality of ids is modelled as equality of tree values (node_eqb)",
-        "names are ordered as Rust Strings of the ESCAPED node name (bytewise); input trees of merge are strictly sorted in that order at every level (wf_tree) - checked on every case; trees written by backups are sorted by the RAW name (see findings)",
+        "names are ordered as the raw (unescaped) file names, bytewise - the order trees are stored in and, since fix 54f57aa, the order merge compares; input trees of merge are strictly sorted in that order at every level (wf_tree), checked on every case; unsorted inputs are only run through the literal loop model",
+        "the abstract merge (theorems) vs the loop as written on std's BinaryHeap (merge_loop, executable): refinement tested on every sorted tie-free case, not proved",
         "cmp is a total preorder (reflexive, transitive, Gt antisymmetric): holds for last_modified_node and the other comparisons used",
         "TreeModifier visitor caches (changed/unchanged maps keyed by tree id resp. (path, id)) are memoisation of a function of the key and are not modelled",
         "copy: the blobs reach the destination through the packer pipeline of C13 (any interleaving); source repository closed (every reachable blob indexed in the source)",
@@ -379,7 +380,7 @@ def run(ctx):
         m = ln[0]
         hist["e2e_" + m] = hist.get("e2e_" + m, 0) + 1
         if out.startswith("err") or out.startswith("panic"):
-            viol.append(({"C": "copy", "G": "merge_snapshots", "W": "rewrite", "R": "repair"}[m] + " run fails: " + out[:160], ln, out[:600], None)); continue
+            viol.append(({"C": "copy", "G": "merge_snapshots", "W": "rewrite", "R": "repair"}[m] + " run fails (error or panic)", ln, out[:600], None)); continue
         if m == "G":
             segs = [x.strip() for x in out.split("|")]
             d = kv(segs[0]); ts = []; res = None
@@ -423,7 +424,7 @@ def run(ctx):
                 what = {"C": "copied snapshot does not restore identically from the destination",
                         "W": "rewrite does not remove exactly the excluded paths",
                         "R": "repair_snapshots: intact repository changed, or a file kept without the marker lost its content"}[m]
-                viol.append((what + " (" + d.get("detail", "?") + ")", ln, out[:600], None))
+                viol.append((what, ln, out[:600], None))
             if len(samples) < 6 and m in "CWR" and not any(s.get("case", "")[0] == m for s in samples):
                 samples.append({"case": ln, "impl": out[:400]})
     if glines and model:
@@ -462,7 +463,7 @@ def run(ctx):
                 if not good:
                     mism.append((ln, o[:300], "%s model differs from the tree the implementation wrote (%s)" % (md, "no new tree" if new is None else "new tree")))
     cov.update({"evaluations": len(mcases) + len(elines), "distinct_nontrivial": len(nontriv),
-                "rule": "M: k in 0..6 hand-built trees over a small name pool (overlapping names; file/dir/symlink/fifo under one name; mtimes from 1, 2, 4 or 9 values incl. None; depth <= 3; a tree merged with itself) x cmp in {mtime, tag, always-Equal, dirs-first}; non-trivial = some name occurs in two inputs.  e2e: C copy (src/dst with different key, compression, pack sizes 1 B..400 kB, two overlapping copy runs, optional pre-populated destination, optional data blob = empty tree blob and data blob = stored non-empty tree blob), G merge_snapshots of 2..4 real backups with clashing names/types and 3 mtime values, W rewrite with 0..3 exclude globs (literal path, bare name, prefix*, path/*), R repair_snapshots on the intact repository and after removing one data or tree pack + repair_index; non-trivial = collision/pre-populated, clash, something excluded, something damaged",
+                "rule": "M: k in 0..6 hand-built trees over a small name pool incl. pairs whose order flips under escaping (overlapping names; file/dir/symlink/fifo under one name; mtimes from 1, 2, 4 or 9 values incl. None; depth <= 3; a tree merged with itself; 12% with unsorted levels for the literal loop model) x cmp in {mtime, tag, always-Equal, dirs-first}; non-trivial = some name occurs in two inputs.  e2e: C copy (src/dst with different key, compression, pack sizes 1 B..400 kB, two overlapping copy runs, optional pre-populated destination, optional data blob = empty tree blob and data blob = stored non-empty tree blob), G merge_snapshots of 2..4 real backups with clashing names/types and 3 mtime values, W rewrite with 0..3 exclude globs (literal path, bare name, prefix*, path/*), R repair_snapshots on the intact repository and after removing one data or tree pack + repair_index; non-trivial = collision/pre-populated, clash, something excluded, something damaged",
                 "samples": samples, "distribution": hist,
                 "traces_validated_against_impl": len(mcases) + len(glines) + len(wr_jobs),
                 "disagreements_checked": len(mism) + len(viol), "model_impl_mismatches": len(mism), "oracle_violations": len(viol)})
